@@ -133,6 +133,19 @@ void LowMemoryRescaledHmmLikelihood::computeForward_()
   greater<double> cmp;
   for (size_t i = 1; i < nbSites_; i++)
   {
+    if (i - offset == maxSize_)
+    {
+      // The array is full: we make partial calculations and reset it:
+      double partialLogLik = 0;
+      sort(lScales.begin(), lScales.end(), cmp);
+      for (size_t j = 0; j < maxSize_; ++j)
+      {
+        partialLogLik += lScales[j];
+      }
+      logLik_ += partialLogLik;
+      offset += maxSize_;
+    }
+
     // Swap pointers:
     tmpLikelihood = previousLikelihood;
     previousLikelihood = currentLikelihood;
@@ -204,19 +217,6 @@ void LowMemoryRescaledHmmLikelihood::computeForward_()
         (*currentLikelihood)[j] = 0;
     }
     lScales[i - offset] = log(scale);
-
-    if (i - offset == maxSize_ - 1)
-    {
-      // We make partial calculations and reset the arrays:
-      double partialLogLik = 0;
-      sort(lScales.begin(), lScales.end(), cmp);
-      for (size_t j = 0; j < maxSize_; ++j)
-      {
-        partialLogLik += lScales[j];
-      }
-      logLik_ += partialLogLik;
-      offset += maxSize_;
-    }
   }
   sort(lScales.begin(), lScales.begin() + static_cast<ptrdiff_t>(nbSites_ - offset), cmp);
   double partialLogLik = 0;
